@@ -180,7 +180,9 @@ pub(super) fn animate<T: Component>(
             }
         }
         if animator.state != AnimationState::Ended {
-            animator.timeline_position += time.delta();
+            // Saturate instead of overflowing: the position is a public field, and an animator
+            // that repeats forever can be left running (or be positioned) arbitrarily far out.
+            animator.timeline_position = animator.timeline_position.saturating_add(time.delta());
         }
         if state_changed {
             events.send(AnimationStateChanged::new(entity, animator.state));
